@@ -1,9 +1,124 @@
+(* Properties/C07.v — Newton-Raphson: results are near-roots; monotone step to the right of the largest root.
+   Statements only; every proof is `exact` of a lemma of Proofs/Newton.v.  Unless a statement
+   quantifies over the instance, it is about the R instance of the model (exact arithmetic);
+   float behaviour is measured by the correspondence check. *)
 From Coq Require Import ZArith List Reals Lra Lia Bool.
-From SV Require Import Base.Num Base.Outcome Model.Poly Model.Solvers Proofs.Newton.
+From SV Require Import Base.Num Base.Outcome Model.Poly Model.Solvers Proofs.Bisect Proofs.Newton.
 Import ListNotations.
 Local Open Scope R_scope.
 
-Theorem c07_tmp : forall (f f' : R -> res R) x0 tol x, nrm f f' x0 0 tol <> Ok x.
-Proof. exact Proofs.Newton.c07_tmp. Qed.
-Check c07_tmp : forall (f f' : R -> res R) x0 tol x, nrm f f' x0 0 tol <> Ok x.
-Print Assumptions c07_tmp.
+(* what an Ok gives (abstract target): x is the Newton step from a previous iterate x' and either the
+   target vanishes at x or the last step is below tol percent of |x|.  The hypothesis tol <= 100 is
+   needed: the carried error starts at 100 and is stale at an iterate 0 (finding F-C07-STALE-100). *)
+Theorem c07_sound : forall (f f' : R -> res R) x0 cap tol x,
+  tol <= 100 -> nrm f f' x0 cap tol = Ok x ->
+  exists x' v d, f x' = Ok v /\ f' x' = Ok d /\ x = x' - v / d /\
+    (f x = Ok 0 \/ (x <> 0 /\ Rabs (x - x') * 100 < tol * Rabs x)).
+Proof. exact Proofs.Newton.c07_sound. Qed.
+Check c07_sound : forall (f f' : R -> res R) x0 cap tol x,
+  tol <= 100 -> nrm f f' x0 cap tol = Ok x ->
+  exists x' v d, f x' = Ok v /\ f' x' = Ok d /\ x = x' - v / d /\
+    (f x = Ok 0 \/ (x <> 0 /\ Rabs (x - x') * 100 < tol * Rabs x)).
+Print Assumptions c07_sound.
+
+(* SimplePolynomial (g = p or p' by mode; sd = simple_derivative): Taylor-Lagrange at the last step gives
+   g x = g''(xi)/2 (x - x')^2, hence the second-order residual bound |g x| <= max|g''|/2 (tol% |x|)^2.
+   (g1 x' <> 0: over R a division by zero is an unspecified number; over floats it yields inf/NaN, which
+   never passes the exit test.) *)
+Theorem c07_sound_simple : forall (p : spoly R) x0 cap tol mode x,
+  tol <= 100 -> s_nrm p x0 cap tol mode = Ok x ->
+  let g := eval_simple (s_target p mode) in
+  let g1 := eval_simple (sd (s_target p mode)) in
+  let g2 := eval_simple (sd (sd (s_target p mode))) in
+  exists x', x = x' - g x' / g1 x' /\
+    (g x = 0 \/ (x <> 0 /\ Rabs (x - x') * 100 < tol * Rabs x)) /\
+    (g1 x' <> 0 ->
+       (exists xi, Rmin x' x <= xi <= Rmax x' x /\ g x = g2 xi / 2 * (x - x') ^ 2) /\
+       (forall M, (forall t, Rmin x' x <= t <= Rmax x' x -> Rabs (g2 t) <= M) ->
+          g x = 0 \/ Rabs (g x) <= M / 2 * (tol / 100 * Rabs x) ^ 2)).
+Proof. exact Proofs.Newton.c07_sound_simple. Qed.
+Check c07_sound_simple : forall (p : spoly R) x0 cap tol mode x,
+  tol <= 100 -> s_nrm p x0 cap tol mode = Ok x ->
+  let g := eval_simple (s_target p mode) in
+  let g1 := eval_simple (sd (s_target p mode)) in
+  let g2 := eval_simple (sd (sd (s_target p mode))) in
+  exists x', x = x' - g x' / g1 x' /\
+    (g x = 0 \/ (x <> 0 /\ Rabs (x - x') * 100 < tol * Rabs x)) /\
+    (g1 x' <> 0 ->
+       (exists xi, Rmin x' x <= xi <= Rmax x' x /\ g x = g2 xi / 2 * (x - x') ^ 2) /\
+       (forall M, (forall t, Rmin x' x <= t <= Rmax x' x -> Rabs (g2 t) <= M) ->
+          g x = 0 \/ Rabs (g x) <= M / 2 * (tol / 100 * Rabs x) ^ 2)).
+Print Assumptions c07_sound_simple.
+
+(* every Num instance (floats included): never a panic, in particular the fuel cap always suffices (no
+   endless loop); the body runs at most max cap 1 times; an error is MaxIterationsReached or an error of
+   the target's evaluation *)
+Theorem c07_total : forall (T : Type) (NT : Num T) (f f' : T -> res T) (x0 : T) (cap : nat) (tol : T),
+  (forall x, no_panic (f x)) -> (forall x, no_panic (f' x)) ->
+  no_panic (nrm f f' x0 cap tol) /\
+  no_panic (nr_loop f f' tol cap cap (nr_start x0)) /\
+  (forall r, nr_loop f f' tol cap cap (nr_start x0) = Ok r -> (1 <= ns_iter r <= Nat.max cap 1)%nat) /\
+  (forall e, nrm f f' x0 cap tol = Err e ->
+     e = EMaxIterationsReached \/ (exists x, f x = Err e) \/ (exists x, f' x = Err e)).
+Proof. exact Proofs.Newton.c07_total. Qed.
+Check c07_total : forall (T : Type) (NT : Num T) (f f' : T -> res T) (x0 : T) (cap : nat) (tol : T),
+  (forall x, no_panic (f x)) -> (forall x, no_panic (f' x)) ->
+  no_panic (nrm f f' x0 cap tol) /\
+  no_panic (nr_loop f f' tol cap cap (nr_start x0)) /\
+  (forall r, nr_loop f f' tol cap cap (nr_start x0) = Ok r -> (1 <= ns_iter r <= Nat.max cap 1)%nat) /\
+  (forall e, nrm f f' x0 cap tol = Err e ->
+     e = EMaxIterationsReached \/ (exists x, f x = Err e) \/ (exists x, f' x = Err e)).
+Print Assumptions c07_total.
+
+(* the two polynomial types never panic, so the extracted entry points never do *)
+Theorem c07_total_poly : forall (T : Type) (NT : Num T) (x0 : T) (cap : nat) (tol : T) (mode : bool),
+  (forall p : spoly T, no_panic (s_nrm p x0 cap tol mode)) /\
+  (forall p : ipoly T, no_panic (i_nrm p x0 cap tol mode)).
+Proof. exact Proofs.Newton.c07_total_poly. Qed.
+Check c07_total_poly : forall (T : Type) (NT : Num T) (x0 : T) (cap : nat) (tol : T) (mode : bool),
+  (forall p : spoly T, no_panic (s_nrm p x0 cap tol mode)) /\
+  (forall p : ipoly T, no_panic (i_nrm p x0 cap tol mode)).
+Print Assumptions c07_total_poly.
+
+(* after repair b6ae3a9: if the k-th Newton iterate (k < cap) is exactly a root - the origin included - the
+   solver returns Ok of that iterate, or of an earlier one on which the exit test already fired *)
+Theorem c07_zero_root : forall (f f' : R -> res R) x0 cap tol k xk,
+  0 < tol -> (1 <= k < cap)%nat ->
+  newton_from f f' x0 k = Ok xk -> f xk = Ok 0 ->
+  exists j xj, (1 <= j <= k)%nat /\ newton_from f f' x0 j = Ok xj /\ nrm f f' x0 cap tol = Ok xj.
+Proof. exact Proofs.Newton.c07_zero_root. Qed.
+Check c07_zero_root : forall (f f' : R -> res R) x0 cap tol k xk,
+  0 < tol -> (1 <= k < cap)%nat ->
+  newton_from f f' x0 k = Ok xk -> f xk = Ok 0 ->
+  exists j xj, (1 <= j <= k)%nat /\ newton_from f f' x0 j = Ok xj /\ nrm f f' x0 cap tol = Ok xj.
+Print Assumptions c07_zero_root.
+
+(* PARTIAL convergence half: one body of the loop started to the right of a root r beyond which g, g' > 0 and
+   g'' >= 0 moves the iterate left without crossing r.  MISSING: the stopping rule fires within the budget
+   and the result is within degree*tol of r (oracle only). *)
+Theorem c07_monotone_partial : forall (p : spoly R) r tol cap (s s' : nstate R) b,
+  let g := eval_simple p in let g1 := eval_simple (sd p) in let g2 := eval_simple (sd (sd p)) in
+  g r = 0 -> (forall t, r < t -> 0 < g t /\ 0 < g1 t) -> (forall t, r <= t -> 0 <= g2 t) ->
+  r < ns_x s ->
+  nr_body (s_eval_univariate p) (s_eval_univariate (sd p)) tol cap s = Ok (s', b) ->
+  r <= ns_x s' < ns_x s.
+Proof. exact Proofs.Newton.c07_monotone_partial. Qed.
+Check c07_monotone_partial : forall (p : spoly R) r tol cap (s s' : nstate R) b,
+  let g := eval_simple p in let g1 := eval_simple (sd p) in let g2 := eval_simple (sd (sd p)) in
+  g r = 0 -> (forall t, r < t -> 0 < g t /\ 0 < g1 t) -> (forall t, r <= t -> 0 <= g2 t) ->
+  r < ns_x s ->
+  nr_body (s_eval_univariate p) (s_eval_univariate (sd p)) tol cap s = Ok (s', b) ->
+  r <= ns_x s' < ns_x s.
+Print Assumptions c07_monotone_partial.
+
+(* non-vacuity: 2x from 3 returns Ok 0 (a root at the origin), so the hypotheses of c07_sound,
+   c07_sound_simple and c07_zero_root are satisfiable *)
+Example c07_nonvacuous : s_nrm p2x 3 100 (1 / 10000) false = Ok 0.
+Proof. exact Proofs.Newton.c07_example_zero_root. Qed.
+
+(* x^2 - 1 and r = 1 satisfy the hypotheses of c07_monotone_partial *)
+Example c07_nonvacuous_monotone :
+  eval_simple px2m1 1 = 0 /\
+  (forall t, 1 < t -> 0 < eval_simple px2m1 t /\ 0 < eval_simple (sd px2m1) t) /\
+  (forall t, 1 <= t -> 0 <= eval_simple (sd (sd px2m1)) t).
+Proof. exact Proofs.Newton.c07_example_monotone_hyps. Qed.
